@@ -31,7 +31,9 @@ func (c *Ctx) constString(e ast.Expr) (string, bool) {
 }
 
 // codeListOf recognises
-//   func (v *validator) isX(code string) error { switch code { case A, B, ...: return nil }; return ErrX }
+//
+//	func (v *validator) isX(code string) error { switch code { case A, B, ...: return nil }; return ErrX }
+//
 // and returns the accepted literals and the name of the returned error.
 func (c *Ctx) codeListOf(fd *ast.FuncDecl) (vals []string, errName string, ok bool) {
 	if fd.Body == nil || len(fd.Body.List) != 2 || len(fd.Type.Params.List) != 1 {
